@@ -1,6 +1,6 @@
 # reg and TB_COMMON are injected by lib/props.py
 reg(id="C12",
-    gen=[],
+    gen=["globals"],
     model_targets=["C12/Corr.vo"],
     proof_targets=["Props/C12.vo"],
     props_file="Props/C12.v",
